@@ -236,6 +236,8 @@ def run(ctx, pid):
         "call/return order of free-running histories = order in which the events were appended under one lock, before the call "
         "and after the return (sound for linearizability; may only lose real-time precedence); free-running runs install a "
         "verifhook handler that yields the processor at random hook points",
+        "schurn: of the free-running subscribe/unsubscribe churn only the rounds flagged by the driver's screen (the probe's "
+        "Iterator did not return exactly one copy of the event it had just published) and a random sample are handed to TLC",
         "consumers: Subscriber does not document single-goroutine use, so concurrent Iterator calls on one subscriber are "
         "explored too; the per-publisher order clause is then checked within each Iterator result only",
         "bounds of the exhaustive runs as stated in the generated .cfg files (2-3 threads per role, 1-2 operations each)",
@@ -251,7 +253,8 @@ def run(ctx, pid):
                        "(LinFifo / StreamMon)",
                "edge_cover_walks_available": total["walks_available"], "edge_cover_walks_replayed": total["walks"],
                "atomic_steps_replayed": total["steps"], "replay_drift": total["drift"], "replay_unreproduced": total["unrep"],
-               "model_prediction_mismatches": total["pred"], "conformance": drift_notes or "accepted", "exhaustive": False}
+               "model_prediction_mismatches": total["pred"], "churn_probe_iterations": total["churn_iterations"],
+               "churn_rounds_flagged_by_screen": total["churn_rounds_flagged"], "conformance": drift_notes or "accepted", "exhaustive": False}
         ctx.evidence("model_checking", cov, assumptions, violations=violations)
 
     # ------------------------------------------------------------------ pipelines: dump graph -> edge cover -> replay
@@ -331,6 +334,16 @@ def run(ctx, pid):
         ctx.run([exe, kind, str(a), str(b), str(c), str(nh), str(ctx.seed * 1000 + a * 10 + c), t], timeout=900)
         return {"label": kind + "-" + label, "hist": t}
 
+    def churn(ntog, rounds, keep):
+        """subscribe/unsubscribe churn of `ntog` subscribers on the one topic (its map is created and deleted all the time)
+        around a probe subscriber doing Subscribe, Publish, Iterator, Unsubscribe; the driver writes out the rounds its
+        screen flags plus `keep` random ones, StreamMon judges them."""
+        with lock:
+            t = ctx.tmp("schurn-%dk.ndjson" % ntog)
+        p = ctx.run([exe, "schurn", str(ntog), str(rounds), "8", str(keep), str(ctx.seed * 100 + ntog), t, "-"], timeout=900)
+        st = json.loads(p.stdout.strip().splitlines()[-1])
+        return {"label": "schurn-%dk" % ntog, "hist": t, "st": st}
+
     if quick:
         q_dumps = [("1d", msq_cfg(["p1", "p2"], ["c1"], 1, 2, 3, extra=MSQ_INV), 1000),
                    ("2d", msq_cfg(["p1", "p2"], ["c1", "c2"], 1, 1, 3, extra=MSQ_INV), 800)]
@@ -352,7 +365,9 @@ def run(ctx, pid):
     f_s = [pool.submit(s_pipeline, *x) for x in s_dumps]
     f_w = pool.submit(s_replay, "witness", witnesses())
     f_qs = [pool.submit(stress, "qstress", "3e3m1d", 3, 3, 1, nh), pool.submit(stress, "qstress", "3e2m2d", 3, 2, 2, nh)]
-    f_ss = [pool.submit(stress, "sstress", "3p3e1d", 3, 3, 1, nh), pool.submit(stress, "sstress", "3p2e2d", 3, 2, 2, nh)]
+    f_ss = [pool.submit(stress, "sstress", "3p3e1d", 3, 3, 1, nh), pool.submit(stress, "sstress", "3p2e2d", 3, 2, 2, nh),
+            pool.submit(churn, 1, 5000 if quick else 40000, 15 if quick else 120),
+            pool.submit(churn, 2, 5000 if quick else 40000, 15 if quick else 120)]
 
     # ------------------------------------------------------------------ thorough: larger exhaustive runs, stale-Defects guards
     f_big = []
@@ -368,7 +383,8 @@ def run(ctx, pid):
             f_big.append(pool.submit(ctx.tlc_must_hold, SPEC, os.path.basename(cfg), module=module,
                                      files={os.path.basename(cfg): cfg}, timeout=2400, workers=6, name=name))
     f_asis = [pool.submit(ctx.tlc, SPEC, "MC_MSQueue_asis.cfg", module="MC_MSQueue", timeout=900, expect_fail=True, workers=2),
-              pool.submit(ctx.tlc, SPEC, "MC_Stream_asis.cfg", module="MC_Stream", timeout=900, expect_fail=True, workers=2)] \
+              pool.submit(ctx.tlc, SPEC, "MC_Stream_asis.cfg", module="MC_Stream", timeout=900, expect_fail=True, workers=2),
+              pool.submit(ctx.tlc, SPEC, "MC_Stream_split.cfg", module="MC_Stream", timeout=900, expect_fail=True, workers=2)] \
         if not quick else []
 
     # ------------------------------------------------------------------ collect replays
@@ -400,6 +416,13 @@ def run(ctx, pid):
     # ------------------------------------------------------------------ judge (TLC): verdict monitors + conformance
     qs_res = [f.result() for f in f_qs]
     ss_res = [f.result() for f in f_ss]
+    for r in ss_res:
+        if "st" in r:
+            st = r["st"]
+            total["churn_iterations"] += st["iterations"]
+            total["churn_rounds_flagged"] += st["flagged"]
+            ctx.log("%-9s: %d rounds / %d probe iterations, %d toggles; %d rounds flagged by the screen, %d rounds handed to StreamMon"
+                    % (r["label"], st["rounds"], st["iterations"], st["toggle_ops"], st["flagged"], st["written"]))
     f_lin = pool.submit(judge_fifo, ctx, lock, [("qreplay-" + r["label"], r["hist"]) for r in q_res] +
                         [(r["label"], r["hist"]) for r in qs_res])
     f_mon = pool.submit(judge_stream, ctx, lock, [("sreplay-" + r["label"], r["hist"]) for r in s_res + [w_res]] +
@@ -416,7 +439,7 @@ def run(ctx, pid):
             total["concurrent_ok"] += max(0, min(j.concurrent[label], j.n[label] - len(j.bad[label])))
             ctx.log("%-14s %-18s: histories %d, distinct with overlapping operations %d, violating %d"
                     % (what, label, j.n[label], j.concurrent[label], len(j.bad[label])))
-            if label.startswith("qstress") or label.startswith("sstress"):
+            if label.startswith("qstress") or label.startswith("sstress") or label.startswith("schurn"):
                 if len(samples) < 6:
                     a = [x for x in j.sources if x[0] == label][0][1]
                     samples.append({label: j.rows[a:a + 8]})
@@ -429,7 +452,8 @@ def run(ctx, pid):
     for f in f_big:
         r = f.result()
         ctx.log("design (thorough): %d distinct states, obligations hold" % r.distinct)
-    for f, inv in zip(f_asis, ("MSQueue.tla with Defects={PoolReuse}", "Stream.tla with Defects={LengthWrap}")):
+    for f, inv in zip(f_asis, ("MSQueue.tla with Defects={PoolReuse}", "Stream.tla with Defects={LengthWrap}",
+                        "Stream.tla with Defects={SubscribeSplit}")):
         if f.result().violated is None:
             raise vlib.Infra("%s no longer violates its obligations (spec changed? the Defects branch is stale)" % inv)
     pool.shutdown()
